@@ -835,6 +835,42 @@ static void caseGeneral(Rng& r, Ctx& c)
     if (c.truth("compute", K(kp + "compute-failed:translated"), v3 != nullptr, "translated samples"))
       compareVarios(c, "translate", K(kp + "translation"), *v3, *v, nvar, refs, sc);
   }
+  // ---- all sampling weights multiplied by the same power of two: every row of the table is a weighted AVERAGE (distance,
+  // statistic), so it cannot change (the sums of weights do, by the square of the factor: not compared). The centre row
+  // C(0) of the covariances is included. Modes whose statistic is documented as an average only (the harness reference
+  // already treats them so): variogram, covariance, non-centred covariance.
+  if (std::string(mi.name) == "VARIOGRAM" || std::string(mi.name) == "COVARIANCE" || std::string(mi.name) == "COVARIANCE_NC")
+  {
+    refv::Data Dw = D;
+    double k = (c.icase % 2) ? 2. : 0.25;
+    if (!Dw.hasW) { Dw.hasW = true; Dw.w.assign(Dw.n, k); }
+    else for (auto& w : Dw.w) w *= k;
+    std::unique_ptr<Db> dbw = mkDb(Dw, ident(D.n), zero);
+    std::unique_ptr<Vario> vw(Vario::computeFromDb(vp, dbw.get(), ecalc(mi)));
+    if (c.truth("compute", K(kp + "compute-failed:weights-scaled"), vw != nullptr, "weights scaled"))
+    {
+      int ndirw = v->getDirectionNumber();
+      for (int idir = 0; idir < ndirw && idir < vw->getDirectionNumber(); idir++)
+        for (int a = 0; a < nvar; a++)
+          for (int b = 0; b <= a; b++)
+          {
+            Got g1 = readVec(*vw, idir, a, b), g2 = readVec(*v, idir, a, b);
+            if (!c.truth("weight-scale", K(kp + "weights-scaled:shape"), g1.sw.size() == g2.sw.size(), "row count")) continue;
+            const refv::Result& R = refs[idir];
+            for (int sl = 0; sl < (int)g1.sw.size(); sl++)
+            {
+              if ((int)g1.sw.size() == R.T.nslot && const_cast<refv::Table&>(R.T).at(a, b, sl).taint) { c.skip("boundary"); continue; }
+              bool centre = R.asym && sl == R.slotCentre();
+              std::string w = fmt("dir %d (%d,%d) slot %d factor %g", idir, a, b, sl, k);
+              bool e1 = refv::undef(g1.gg[sl]), e2 = refv::undef(g2.gg[sl]);
+              if (e1 || e2) { c.truth("weight-scale", K(kp + "weights-scaled:defined-rows-differ"), e1 == e2, w); continue; }
+              c.close("weight-scale", K(kp + (centre ? "weights-scaled:centre" : "weights-scaled:lag")), g1.gg[sl], g2.gg[sl], relTol(g2.gg[sl], sc), "gg " + w);
+              if (!refv::undef(g1.hh[sl]) && !refv::undef(g2.hh[sl]))
+                c.close("weight-scale", K(kp + (centre ? "weights-scaled:centre" : "weights-scaled:lag")), g1.hh[sl], g2.hh[sl], relTol(g2.hh[sl], 0), "hh " + w);
+            }
+          }
+    }
+  }
   // ---- reversing the order of the variables: an even statistic is unchanged, an odd one is mirrored,
   // C_ab(h) = C_ba(-h) (definition of a cross-covariance; no convention involved)
   if (nvar > 1)
